@@ -16,7 +16,7 @@ from .. import core
 
 CLS = {1: 'M', 2: 'MM', 3: 'SS', 4: 'UM', 5: 'RT', 6: 'SX'}
 OPS = {1: 'new', 2: 'copy', 3: 'freeze', 4: 'thaw', 5: 'setattr', 6: 'hash', 7: 'freeze_none',
-       8: 'thaw_none', 9: 'hashf', 10: 'delattr', 11: 'setnew', 12: 'hashd'}
+       8: 'thaw_none', 9: 'hashf', 10: 'delattr', 11: 'setnew', 12: 'hashd', 13: 'read'}
 BAD = 999
 TWIN = 777
 INF = 888
@@ -104,6 +104,30 @@ def _describe(o):
     except Exception as e:
         return 'cannot read %r: %r' % (name, e)
     return 'unexpected object %s' % core.srepr(o)
+
+
+def _r_hash(mido, a):
+    return hash(a) if type(a).__name__.startswith('Frozen') else str(a)
+
+
+def _r_text(mido, a):
+    if isinstance(a, mido.Message):
+        return mido.format_as_string(a, include_time=False), mido.format_as_string(a), str(a)
+    return repr(a), str(a)
+
+
+def _r_pickle(mido, a):
+    import copy
+    import pickle
+    return pickle.dumps(a), copy.copy(a), copy.deepcopy(a)
+
+
+_READERS = {1: _r_hash, 2: _r_text, 3: lambda mido, a: (a.dict(), dict(vars(a)).keys(), dir(a)),
+            4: lambda mido, a: (a.bytes(), a.bin(), a.hex(), len(a) if isinstance(a, mido.Message) else 0),
+            5: lambda mido, a: (a == a.copy(), a != a, a.is_cc(), a.is_realtime, a.is_meta, {a} if type(a).__name__.startswith('Frozen') else 0),
+            6: _r_pickle}
+_READER_NAMES = {1: 'hash / str', 2: 'format_as_string / repr', 3: 'dict / dir', 4: 'bytes / bin / hex / len', 5: 'comparison / predicates',
+                 6: 'pickle / copy.copy / deepcopy'}
 
 
 def parse_row(ints):
@@ -298,6 +322,13 @@ def replay_history(steps):
                 if hash(a) != hash(b) or {a: 1}.get(b) != 1 or len({a, b}) != 1:
                     return ('hash-differs/construction-route',
                             '%s: %s (constructed) and its decoded twin are equal but do not hash equal' % (where, core.srepr(a)))
+            elif op == 'read':
+                a = objs[i - 1]
+                before = (list(vars(a)), dict(vars(a)))
+                _READERS[v](mido, a)
+                if (list(vars(a)), dict(vars(a))) != before:
+                    return ('read-changes/%s' % _READER_NAMES[v], '%s: %s of %s changed its attributes from %s to %s' % (
+                        where, _READER_NAMES[v], type(a).__name__, core.srepr(before[1], 120), core.srepr(dict(vars(a)), 120)))
             elif op == 'freeze_none':
                 if freeze_message(None) is not None:
                     return 'freeze-none', 'freeze_message(None) is not None'
